@@ -202,24 +202,50 @@ def redirection_table(ctx, prog, R="R05.1", RH="R05.1h"):
                "a user-supplied file becomes a child end only after set_inheritable(&file, true) succeeded (on Windows a handle that is not inheritable never reaches the child)")
     ru = prog.fns[helper["reuse"]]
     Tr = M.Terms(ru)
-    # dest <- Rc::clone(src.unwrap()), src filled from get_standard_stream(src_id) only when it is None
-    ex, T, stores = effects(ru, {})
-    dest_store = [s for s in stores if s[0] == ("slot", ("param", 1, ru.local_name(1)), ("*",))]
-    src_store = [s for s in stores if s[0] == ("slot", ("param", 2, ru.local_name(2)), ("*",))]
-    okd = len(dest_store) == 1
+    # postcondition, decided separately for *src == None and *src == Some(s): dest <- Some(Rc sharing *src), and *src is written only in the
+    # None case, with get_standard_stream(src_id)? -- whichever way the case distinction is written (is_none() test, match, if let)
+    destp, srcp, idp = (("param", i, ru.local_name(i)) for i in (1, 2, 3))
+    is_gss = lambda t: t[0] == "call" and t[1] == "popen::get_standard_stream" and tuple(M.noref(x) for x in t[2]) == (idp,)
+
+    def case(v):
+        ex_, T_, st_ = effects(ru, {}, assume_fn=lambda t: v if M.noref(t) == srcp else None)
+        pos = {}
+        for bb_ in sorted(ex_.blocks):
+            for si_, s_ in enumerate(ru.blocks[bb_]["stmts"]):
+                if s_["k"] == "assign" and s_["p"]["proj"] and s_["p"]["proj"][0]["k"] == "deref":
+                    pos.setdefault((s_["p"]["l"], bb_), si_)
+        some_payload = lambda x: x[2][0] if x[0] == "agg" and x[1][:3] == ("adt", "std::option::Option", "Some") and x[2] else None
+        d_ = [(some_payload(s_[1]), s_[2]) for s_ in st_ if s_[0] == ("slot", destp, ("*",))]
+        s__ = [(some_payload(s_[1]), s_[2]) for s_ in st_ if s_[0] == ("slot", srcp, ("*",))]
+        return ex_, d_, s__, pos
+    exN, dN, sN, posN = case(0)
+    exS, dS, sS, posS = case(1)
+    core = lambda x: M.noref(M.strip(x)) if x is not None else None
+    okd = len(dS) == 1 and core(dS[0][0]) == srcp and dS[0][0][0] == "call" and "Rc" in dS[0][0][1] and "clone" in dS[0][0][1]
+    why = "dest <- %s when *src is Some" % (M.term_str(dS[0][0]) if dS and dS[0][0] else None)
     if okd:
-        v = dest_store[0][1]
-        okd = v[0] == "agg" and v[1][:3] == ("adt", "std::option::Option", "Some") and v[2][0][0] == "call" and "Rc" in v[2][0][1] and "clone" in v[2][0][1] \
-            and M.strip(v[2][0]) == ("param", 2, ru.local_name(2))
-    ctx.ob(RH, "reuse_stream.dest<-clone(src)", okd, ru.loc(0), "dest <- %s (must be Some(Rc::clone(src.unwrap())))" % (M.term_str(dest_store[0][1]) if dest_store else None))
-    oks = len(src_store) == 1
-    if oks:
-        v = src_store[0][1]
-        inner = M.strip(v[2][0]) if v[0] == "agg" and v[2] else None
-        oks = inner is not None and inner[0] == "call" and inner[1] == "popen::get_standard_stream" and inner[2] == (("param", 3, ru.local_name(3)),)
-        isnone = bool_edges(ru, Tr, lambda t: t[0] == "call" and t[1] == "std::option::Option::<T>::is_none" and M.strip(t[2][0]) == ("param", 2, ru.local_name(2)), True)
-        oks = oks and dominated_by_edges(ru, src_store[0][2], isnone)
-    ctx.ob(RH, "reuse_stream.src-default", oks, ru.loc(0), "src is filled with get_standard_stream(src_id) only when it is None")
+        okd = len(dN) == 1 and len(sN) == 1 and dN[0][0] is not None
+        if okd:
+            cd_, cs_ = core(dN[0][0]), core(sN[0][0])
+            def reach_without(ex_, avoid):
+                seen, st_ = set(), [0]
+                while st_:
+                    b_ = st_.pop()
+                    if b_ in seen or b_ == avoid:
+                        continue
+                    seen.add(b_)
+                    st_.extend(w for (v_, w) in ex_.edges if v_ == b_)
+                return seen
+            after = (dN[0][1] != sN[0][1] and dN[0][1] not in reach_without(exN, sN[0][1])) \
+                or (dN[0][1] == sN[0][1] and posN.get((2, sN[0][1]), 1 << 30) < posN.get((1, dN[0][1]), -1))
+            okd = (cd_ == srcp and after and dN[0][0][0] == "call" and "clone" in dN[0][0][1]) or (is_gss(cd_) and cd_ == cs_)
+            why = "dest <- %s, *src <- %s when *src is None" % (M.term_str(dN[0][0]), M.term_str(sN[0][0]) if sN[0][0] else None)
+        else:
+            why = "%d stores to dest, %d to *src when *src is None" % (len(dN), len(sN))
+    ctx.ob(RH, "reuse_stream.dest<-clone(src)", okd, ru.loc(0), "%s (dest must share the Rc held by *src on return)" % why)
+    oks = len(sS) == 0 and len(sN) == 1 and sN[0][0] is not None and is_gss(core(sN[0][0]))
+    ctx.ob(RH, "reuse_stream.src-default", oks, ru.loc(0), "src is filled with get_standard_stream(src_id) only when it is None (%d stores when Some; when None: %s)"
+           % (len(sS), [M.term_str(x[0]) if x[0] else None for x in sN]))
     gss = prog.one("popen::get_standard_stream::{closure#0}")
     Tg = M.Terms(gss)
     mks = gss.calls_to(lambda f: M.callee_str(f) in ("posix::make_standard_stream", "win32::make_standard_stream"))
